@@ -48,6 +48,12 @@ pub struct Disk {
     pub snap_on: bool,
     pub snaps: Vec<Items>, // snapshot taken before each write while snap_on
     pub fired: Fired,
+    /// C17: a real backend behind the map. Writes go to both; reads and listings are answered
+    /// by the backend and compared with the map (the reference model: first write wins).
+    pub backend: Option<Box<dyn Adapter>>,
+    pub backend_name: String,
+    pub backend_mismatch: Option<String>,
+    pub backend_calls: u64,
 }
 
 impl Disk {
@@ -65,6 +71,10 @@ impl Disk {
             snap_on: false,
             snaps: vec![],
             fired: Fired::default(),
+            backend: None,
+            backend_name: String::new(),
+            backend_mismatch: None,
+            backend_calls: 0,
         }
     }
 }
@@ -84,6 +94,20 @@ impl DiskRef {
     pub fn with<R>(&self, f: impl FnOnce(&mut Disk) -> R) -> R {
         let mut g = self.0.lock().unwrap_or_else(|e| e.into_inner());
         f(&mut g)
+    }
+    /// A file-sync tool drops an item into the store (write-once), behind the adapter's back.
+    pub fn put(&self, key: &str, bytes: &[u8]) {
+        self.with(|d| {
+            if !d.map.contains_key(key) {
+                if let Some(b) = &d.backend {
+                    d.backend_calls += 1;
+                    if let Err(e) = b.write_object(key, bytes) {
+                        d.backend_mismatch.get_or_insert(format!("write_object({}) failed on the backend: {}", key, e));
+                    }
+                }
+                d.map.insert(key.to_string(), bytes.to_vec());
+            }
+        })
     }
     pub fn items(&self) -> Items {
         self.with(|d| d.map.clone())
@@ -137,6 +161,24 @@ impl Adapter for SimAdapter {
             if d.logging {
                 d.log.push(Call::Read { key: key.to_string(), off: offset, len: length, ok: r.is_ok() });
             }
+            if let Some(b) = &d.backend {
+                d.backend_calls += 1;
+                let in_contract = (offset == 0 && length == 0) || (length > 0 && r.is_ok()) || !d.map.contains_key(key);
+                if in_contract {
+                    let br = b.read_object(key, offset, length);
+                    match (&r, &br) {
+                        (Ok(x), Ok(y)) if x == y => {}
+                        (Err(_), Err(_)) => {}
+                        _ => {
+                            let msg = format!("read_object({}, {}, {}) on {}: backend returned {} but the first write to this key gives {}", key, offset, length, d.backend_name,
+                                match &br { Ok(y) => format!("{} bytes (sha {})", y.len(), &crate::refstore::sha_hex(y)[..12]), Err(e) => format!("error {}", e) },
+                                match &r { Ok(x) => format!("{} bytes (sha {})", x.len(), &crate::refstore::sha_hex(x)[..12]), Err(_) => "an error (no such item / out of range)".to_string() });
+                            d.backend_mismatch.get_or_insert(msg);
+                        }
+                    }
+                    return br;
+                }
+            }
             r
         })
     }
@@ -166,6 +208,14 @@ impl Adapter for SimAdapter {
                 }
             };
             let failed = outcome == WriteOutcome::Failed;
+            if !failed {
+                if let Some(b) = &d.backend {
+                    d.backend_calls += 1;
+                    if let Err(e) = b.write_object(key, data) {
+                        d.backend_mismatch.get_or_insert(format!("write_object({}) failed on {}: {}", key, d.backend_name, e));
+                    }
+                }
+            }
             if d.logging {
                 d.log.push(Call::Write { key: key.to_string(), data: data.to_vec(), outcome });
             }
@@ -191,6 +241,25 @@ impl Adapter for SimAdapter {
             }
             if d.logging {
                 d.log.push(Call::List { ext: ext.to_string(), n: v.len() });
+            }
+            if let Some(b) = &d.backend {
+                d.backend_calls += 1;
+                match b.list_objects(ext) {
+                    Ok(bl) => {
+                        let (mut x, mut y) = (v.clone(), bl.clone());
+                        x.sort();
+                        y.sort();
+                        if x != y {
+                            let only_b: Vec<&String> = y.iter().filter(|k| !x.contains(k)).take(4).collect();
+                            let only_m: Vec<&String> = x.iter().filter(|k| !y.contains(k)).take(4).collect();
+                            d.backend_mismatch.get_or_insert(format!("list_objects({:?}) on {}: backend lists {} names, model {}; only backend {:?}, only model {:?}", ext, d.backend_name, y.len(), x.len(), only_b, only_m));
+                        }
+                        return Ok(bl);
+                    }
+                    Err(e) => {
+                        d.backend_mismatch.get_or_insert(format!("list_objects({:?}) failed on {}: {}", ext, d.backend_name, e));
+                    }
+                }
             }
             Ok(v)
         })
